@@ -121,6 +121,41 @@ func genCase(t *rapid.T) arith.Case {
 				c.X.Coeff += "000"
 				c.X.Exp = -3
 			}
+		} else if gen.Pick(t, 25, "nearrep") == 1 {
+			// x = ln(v), to 60 places, of a value v of at most Precision digits: e^x lies within
+			// 10^-55 (relative) of a representable number, so every guard digit of any working
+			// precision is a zero or a nine and the final rounding of the implementation drops
+			// zeros only - the result is inexact all the same, and subnormal with Underflow when v
+			// is below 10^MinExponent (half the cases, down to Etiny and just beyond; |x| is
+			// above 23000 for the exponent ranges from 9990 on)
+			emax := []int{3, 96, 999, 9989, 20000, 65000, 100000}[gen.Pick(t, 7, "nremax")]
+			emin := -[]int{0, 3, 95, 998, 9990, 10002, 20000, 65000, 100000}[gen.Pick(t, 9, "nremin")]
+			c.Ctx.Emax, c.Ctx.Emin = int32(emax), int32(emin)
+			p := int(c.Ctx.P)
+			vd := strings.TrimLeft(gen.DigitsN(t, rapid.IntRange(1, p).Draw(t, "nrn"), 9, "nrv"), "0")
+			if vd == "" {
+				vd = "7"
+			}
+			var e int
+			switch gen.Pick(t, 4, "nrwhere") {
+			case 0, 1:
+				e = emin - rapid.IntRange(-1, p+1).Draw(t, "nrsub")
+			case 2:
+				e = emax - rapid.IntRange(-1, 2).Draw(t, "nrtop")
+			default:
+				e = rapid.IntRange(-30, 30).Draw(t, "nrmid")
+			}
+			if e < -gen.Limit+100 {
+				e = -gen.Limit + 100
+			}
+			if e > gen.Limit-100 {
+				e = gen.Limit - 100
+			}
+			vb, _ := new(big.Int).SetString(vd, 10)
+			const w = 60
+			r := ref.NewFP(w).LnDec(vb, int64(e-len(vd)+1))
+			c.X = core.Dec{Coeff: new(big.Int).Abs(r.Lo).String(), Exp: -w, Neg: r.Lo.Sign() < 0}
+			c.Note = "nearrep"
 		} else if gen.Pick(t, 400, "exptiny") == 1 {
 			// tiny arguments m*10^-k at a Precision around k itself, in the tens of thousands:
 			// cheap (the result is 1 + x + x^2/2 to working precision) and the region where the
@@ -684,6 +719,9 @@ func check(c arith.Case, st *core.Stats) error {
 			return fmt.Errorf("%s; the true value overflows the range", desc)
 		}
 		return nil
+	}
+	if c.Note == "nearrep" {
+		st.Class("exp-of-ln-of-a-representable-value")
 	}
 	if p > 60 {
 		st.Class("precision>60")
